@@ -359,7 +359,8 @@ func (s *c04Server) show(n c04Name) string {
 	return "h" + strconv.Itoa(code)
 }
 
-func (s *c04Server) list() ([]c04Name, bool) {
+// list returns the display names of GET /api/tags.
+func (s *c04Server) list() ([]string, bool) {
 	code, body := s.do(http.MethodGet, "/api/tags", nil)
 	if code != 200 {
 		return nil, false
@@ -372,11 +373,39 @@ func (s *c04Server) list() ([]c04Name, bool) {
 	if err := json.Unmarshal(body, &r); err != nil {
 		return nil, false
 	}
-	var out []c04Name
+	var out []string
 	for _, m := range r.Models {
-		out = append(out, c04FromModelName(model.ParseName(m.Name)))
+		out = append(out, m.Name)
 	}
 	return out, true
+}
+
+// resolveListed maps the display names of the listing back to manifest files.  DisplayShortest elides the
+// default host and namespace case-insensitively, so "baZ:Latest" may stand for manifests/…/liBRARY/baZ/Latest:
+// a display name is matched with the (unused) readable manifest that displays as exactly that string, and
+// only if there is none is it parsed.
+func (sn *c04Snap) resolveListed(display []string) []c04Name {
+	used := map[c04Name]bool{}
+	var out []c04Name
+	for _, d := range display {
+		found := false
+		for _, m := range sn.mans {
+			if !m.readable || used[m.name] {
+				continue
+			}
+			mn := model.Name{Host: m.name.Host, Namespace: m.name.Ns, Model: m.name.Model, Tag: m.name.Tag}
+			if mn.DisplayShortest() == d {
+				used[m.name] = true
+				out = append(out, m.name)
+				found = true
+				break
+			}
+		}
+		if !found {
+			out = append(out, c04FromModelName(model.ParseName(d)))
+		}
+	}
+	return out
 }
 
 // ---------------------------------------------------------------- observation of the directory
@@ -461,7 +490,8 @@ func (s *c04Server) snapshot() *c04Snap {
 		}
 		sn.blobs = append(sn.blobs, cb)
 	}
-	sn.listed, sn.listOK = s.list()
+	display, ok := s.list()
+	sn.listed, sn.listOK = sn.resolveListed(display), ok
 	return sn
 }
 
@@ -1103,6 +1133,28 @@ func TestVerifC04(t *testing.T) {
 		}
 		run.end()
 		return
+	}
+
+	// ---- regression corpus (corpus/C04/*.txt: one history per file, replay format), run first
+	if cd := os.Getenv("VERIF_CORPUS"); cd != "" {
+		files, _ := filepath.Glob(filepath.Join(cd, "*.txt"))
+		sort.Strings(files)
+		for _, f := range files {
+			raw, err := os.ReadFile(f)
+			if err != nil {
+				t.Fatal(err)
+			}
+			run.begin(t, base, hist)
+			hist++
+			for _, s := range strings.Split(strings.TrimSpace(string(raw)), " ;; ") {
+				if strings.TrimSpace(s) == "" || run.failed {
+					continue
+				}
+				run.apply(c04ParseOp(s))
+			}
+			run.end()
+			out.Count("histories_corpus")
+		}
 	}
 
 	g0, g1 := pool.ggufs[0], pool.ggufs[1]
